@@ -1,10 +1,16 @@
 """C13 - typed fields serialized exactly once; serializer failures contained."""
 
+from vf import sched
+
+sched.install()  # before eliot is imported (part 'threads' runs under the line-granular scheduler)
+
 import copy
+import itertools
 import random
 
-from eliot import (ActionType, Field, Logger, MessageType, add_destinations, add_global_fields, current_action, remove_destination,
-                   start_action)
+from eliot import (ActionType, Field, Logger, MessageType, add_destinations, add_global_fields, current_action, fields as fields_factory,
+                   remove_destination, start_action)
+from eliot import _output, _validation
 
 from vf import excs, gen
 from vf.gen import json_equal
@@ -21,7 +27,10 @@ RULE = ("generated type definitions (1-4 declared fields, serializers from a poo
         "fields untouched, caller-held dicts/objects deep-equal and identity-equal to their snapshot; on failure the message is absent, "
         "exactly one eliot:traceback then one eliot:serialization_failure (rendering mentions the message) are logged in the context "
         "current at the call at fresh later positions, no serializer called twice, the call returns normally. non-trivial = "
-        "non-idempotent serializer or >=1 failing one; distinct by (message kind, serializer kinds, failing set, missing field)")
+        "non-idempotent serializer or >=1 failing one; distinct by (message kind, serializer kinds, declaration kinds, failing set, missing field). "
+        "Fields are declared by Field(key, serializer), Field.for_types, the fields() factory or Field.for_value. Extra parts: a serializer that "
+        "logs a message of its own type (re-entrancy), and 2-3 threads logging one type under the line-granular scheduler (LINE events on "
+        "eliot/_validation.py and eliot/_output.py, all one-preemption schedules + sampled): every delivered message holds its own values")
 ASSUMPTIONS = ["Logger.write with an explicit serializer uses MessageType._serializer (the object the library itself passes)",
                "serializers raise Exception subclasses"]
 BATCH = 250
@@ -40,7 +49,9 @@ KINDS = ["msg_nocontext", "msg_in_action", "action_start", "action_success", "ac
 
 def plan(tier, seed):
     n = 60000 if tier == "quick" else 600000
-    return [{"seed": seed, "lo": i, "hi": min(n, i + BATCH), "globals": (i // BATCH) % 2 == 1} for i in range(0, n, BATCH)]
+    specs = [{"part": "seq", "seed": seed, "lo": i, "hi": min(n, i + BATCH), "globals": (i // BATCH) % 2 == 1} for i in range(0, n, BATCH)]
+    specs += [{"part": "threads", "seed": seed, "i": i, "tier": tier} for i in range(12 if tier == "quick" else 150)]
+    return specs
 
 
 def snapshot(o):
@@ -102,8 +113,24 @@ def one(seed, i, has_globals, gfields, res):
             return f(v)
         return s
 
-    fields = [Field(k, make_ser(k), "") for k in keys]
+    # how each field is declared: a custom serializer (counted, may fail), Field.for_types / the fields() factory (identity),
+    # or Field.for_value (always serializes to the constant)
+    decl = {k: rng.choice(["custom", "custom", "for_types", "factory", "for_value"]) for k in keys}
+    if mode == "fail":
+        for k in failing:
+            decl[k] = "custom"
     values = {k: gen.gen_value(rng, rng.choice([0, 1, 2])) for k in keys}
+    fields = []
+    for k in keys:
+        if decl[k] == "custom":
+            fields.append(Field(k, make_ser(k), ""))
+        elif decl[k] == "for_types":
+            fields.append(Field.for_types(k, [str, int, float, bool, list, dict, None], ""))
+        elif decl[k] == "factory":
+            t = type(values[k]) if type(values[k]) in (str, int, float, bool, list, dict) else None
+            fields.extend(fields_factory(**{k: t}))
+        else:
+            fields.append(Field.for_value(k, "const-%s" % k, ""))
     extra = {}
     if rng.random() < 0.4:
         extra = {"undeclared_" + str(j): gen.gen_value(rng, 1) for j in range(rng.randint(1, 2))}
@@ -126,7 +153,7 @@ def one(seed, i, has_globals, gfields, res):
     mt = "c13:m%d" % i
     at = "c13:a%d" % i
     raised = None
-    expected = {k: SERS[sers[k]](v) for k, v in values.items()}
+    expected = {k: (SERS[sers[k]](v) if decl[k] == "custom" else ("const-%s" % k if decl[k] == "for_value" else v)) for k, v in values.items()}
     before_len = [0]
     try:
         if kind == "msg_nocontext":
@@ -191,6 +218,7 @@ def one(seed, i, has_globals, gfields, res):
             target = lambda m: m.get("message_type") == mt
             if kind == "write_plain":
                 expected = dict(values)
+                decl = {k: "custom" for k in keys}
     except BaseException as e:
         raised = e
         problems.append("the logging call raised %r" % (e,))
@@ -221,6 +249,8 @@ def one(seed, i, has_globals, gfields, res):
                         problems.append("%s: undeclared field %r delivered as %r, logged %r" % (kind, k, m.get(k), v))
                 want_calls = 0 if kind == "write_plain" else 1
                 for k in keys:
+                    if decl[k] != "custom":
+                        continue
                     if calls[k] != want_calls and not (kind == "write_plain" and k == missing):
                         problems.append("%s: serializer of %r was called %d times for one message" % (kind, k, calls[k]))
             else:
@@ -284,7 +314,7 @@ def one(seed, i, has_globals, gfields, res):
     c["serializer_calls_counted"] = c.get("serializer_calls_counted", 0) + sum(calls.values())
     c["caller_snapshots_compared"] = c.get("caller_snapshots_compared", 0) + 1
     if failing or missing or any(sers[k] in NON_IDEMPOTENT for k in keys):
-        res["nontrivial"].append(h([kind, sorted(sers.items()), sorted(failing), missing, has_globals]))
+        res["nontrivial"].append(h([kind, sorted(sers.items()), sorted(decl.items()), sorted(failing), missing, has_globals]))
     if res.get("sample") is None and will_fail:
         res["sample"] = {"kind": kind, "serializers": sers, "failing": sorted(failing), "missing": missing, "values": values,
                          "tape": [{k: v for k, v in m.items() if k not in ("timestamp", "traceback")} for m in msgs]}
@@ -294,8 +324,124 @@ def one(seed, i, has_globals, gfields, res):
                                              "values": values, "problems": problems[:8]}})
 
 
+def reentrant_case(seed, i, res):
+    """A serializer that itself logs a message of the same type: both messages must come out with their own values."""
+    rng = random.Random("%s:C13:re:%d" % (seed, i))
+    tape = Tape()
+    rec = Recorder(tape, "rec")
+    add_destinations(rec)
+    mt = "c13:re%d" % i
+    depth = [0]
+    T = []
+
+    def ser_a(v):
+        if depth[0] < rng.choice([1, 1, 2]) and isinstance(v, list) and v and v[0] == "outer":
+            depth[0] += 1
+            T[0].log(a=["inner", depth[0]], b={"who": "inner%d" % depth[0]}, c=depth[0])
+        return {"v": v}
+
+    T.append(MessageType(mt, [Field("a", ser_a, ""), Field("b", lambda v: [v], ""), Field.for_types("c", [int], "")], ""))
+    problems = []
+    try:
+        T[0].log(a=["outer", 0], b={"who": "outer"}, c=0)
+    except BaseException as e:
+        problems.append("logging raised %r" % (e,))
+    finally:
+        remove_destination(rec)
+    got = [m for m in tape.msgs("rec") if m.get("message_type") == mt]
+    want = []
+    for d in range(depth[0], 0, -1):
+        want.append({"a": {"v": ["inner", d]}, "b": [{"who": "inner%d" % d}], "c": d})
+    want.append({"a": {"v": ["outer", 0]}, "b": [{"who": "outer"}], "c": 0})
+    # inner messages are emitted while the outer one is still being serialized: innermost first is NOT required, only content
+    gotf = sorted(({k: m.get(k) for k in ("a", "b", "c")} for m in got), key=lambda m: m["c"])
+    wantf = sorted(want, key=lambda m: m["c"])
+    if len(gotf) != len(wantf) or any(not json_equal(g, w) for g, w in zip(gotf, wantf)):
+        problems.append("messages logged from inside a serializer of the same type came out as %r, expected %r" % (gotf, wantf))
+    res["evals"] += 1
+    res["counters"]["reentrant_serializer_cases"] = res["counters"].get("reentrant_serializer_cases", 0) + 1
+    res["nontrivial"].append(h(["reentrant", depth[0]]))
+    if problems:
+        res["violations"].append({"msg": problems[0], "mech": None, "detail": {"case": i, "kind": "reentrant", "problems": problems}})
+
+
+def part_threads(spec, res):
+    """Two or three threads log the same typed message concurrently: every delivered message carries its own thread's serialized values."""
+    rng = random.Random("%s:C13:thr:%d" % (spec["seed"], spec["i"]))
+    sched.instrument([_validation, _output])
+    nthreads = rng.choice([2, 2, 3])
+    nmsg = rng.choice([1, 2])
+    T = MessageType("c13:thr", [Field("a", lambda v: {"v": v}, ""), Field("b", lambda v: [v], ""), Field.for_types("t", [int], ""), Field("z", str, "")], "")
+    names = ["T%d" % t for t in range(nthreads)]
+    c = res["counters"]
+
+    def execute(plan_, label):
+        tape = Tape()
+        rec = Recorder(tape, "rec")
+        add_destinations(rec)
+
+        def worker(t):
+            def run():
+                for s in range(nmsg):
+                    T.log(a=["a", t, s], b=("b-%d-%d" % (t, s)), t=t, z=(t, s))
+            return run
+        try:
+            st, errs = sched.run_schedule(plan_, {"T%d" % t: worker(t) for t in range(nthreads)}, timeout=60.0)
+        finally:
+            remove_destination(rec)
+        res["evals"] += 1
+        c["thread_schedules_run"] = c.get("thread_schedules_run", 0) + 1
+        problems = ["thread %s raised %r" % (n, e) for n, e in errs.items()]
+        if st["deadlock"]:
+            problems.append("logging threads deadlocked: %s" % st["deadlock"])
+        elif st["aborted"]:
+            res["inconclusive"] = "schedule abandoned: %s" % st["aborted"]
+            return st
+        msgs = [m for m in tape.msgs("rec") if m.get("message_type") == "c13:thr"]
+        if len(msgs) != nthreads * nmsg:
+            problems.append("%d typed messages delivered, %d logged (other messages: %s)" % (len(msgs), nthreads * nmsg,
+                            [m.get("message_type") for m in tape.msgs("rec") if m.get("message_type") != "c13:thr"][:4]))
+        seen = set()
+        for m in msgs:
+            t = m.get("t")
+            ok = isinstance(m.get("a"), dict) and isinstance(m["a"].get("v"), list) and m["a"]["v"][:2] == ["a", t] and \
+                isinstance(m.get("b"), list) and m["b"] == ["b-%s-%s" % (t, m["a"]["v"][2])] and m.get("z") == str((t, m["a"]["v"][2]))
+            if not ok:
+                problems.append("a delivered message mixes values of different logging calls or is not serialized exactly once: %r" % (
+                    {k: m.get(k) for k in ("a", "b", "t", "z")},))
+                break
+            seen.add((t, m["a"]["v"][2]))
+        if not problems and len(seen) != nthreads * nmsg:
+            problems.append("some message was delivered twice / another lost: %s" % sorted(seen))
+        res["sets"]["interleavings"].append(sched.trace_hash(st))
+        for nm, k, loc in st["fired"]:
+            res["sets"]["preemption_lines"].append(loc)
+        if st["fired"]:
+            res["nontrivial"].append(sched.trace_hash(st))
+        if problems and len(res["violations"]) < 3:
+            res["violations"].append({"msg": problems[0], "mech": None, "detail": {"kind": "threads", "plan": plan_, "problems": problems[:5], "label": label}})
+        return st
+
+    base = None
+    for order in itertools.permutations(names):
+        base = execute({"order": list(order), "changes": []}, "baseline")
+        if base["aborted"]:
+            continue
+        for p in sched.one_preemption_plans(list(order), base["events"]):
+            execute(p, "1-preemption")
+            if len(res["violations"]) >= 3:
+                return
+    for p in sched.sampled_plans(rng, names, base["events"], 40 if spec["tier"] == "quick" else 400):
+        execute(p, "sampled")
+
+
 def run_case(spec):
-    res = {"evals": 0, "nontrivial": [], "counters": {}, "violations": [], "sample": None}
+    res = {"evals": 0, "nontrivial": [], "counters": {}, "violations": [], "sample": None, "sets": {"interleavings": [], "preemption_lines": []}}
+    if spec["part"] == "threads":
+        part_threads(spec, res)
+        return res
+    for i in range(spec["lo"], spec["lo"] + 3):
+        reentrant_case(spec["seed"], i, res)
     gfields = {}
     if spec["globals"]:
         gfields = {"g_host": "h1", "g_n": 7}
@@ -310,4 +456,6 @@ def finalize(agg, tier):
     for k in KINDS:
         if not any(x.startswith(k + ":") for x in kinds):
             return "message kind %s never exercised" % k
+    if agg["counters"].get("thread_schedules_run", 0) < 300 or agg["counters"].get("reentrant_serializer_cases", 0) < 100:
+        return "too few thread schedules / re-entrant serializer cases"
     return None
